@@ -219,6 +219,9 @@ def gauss_cases(draw, tier="quick"):
          "int_dtype": draw(st.sampled_from([False, False, False, True])), "as_list": draw(st.booleans()),
          # memory layout of dense matrix / vector arguments (Fortran order, non-contiguous view, negative strides, read-only)
          "layout": draw(st.sampled_from(gen.LAYOUTS))}
+    if structure == "dense":
+        # (LAPACK works in place on Fortran-ordered float64 matrices only: that layout gets more weight for dense matrices)
+        c["layout"] = draw(st.sampled_from(["plain", "fortran", "fortran", "fortran", "strided", "reversed", "readonly"]))
     if c["int_dtype"] and structure == "vector" and param in ("cov", "prec"):
         ivals = [float(draw(st.integers(1, 9))) for _ in range(n)]
         c["var"] = ivals if param == "cov" else [1.0 / v for v in ivals]
